@@ -10,7 +10,7 @@ called directly on BFS metrics of generated connected graphs, with every `np.ran
 [T]/oracle: exhaustive 2*mGH (Lean `mgh.spec` and an independent NumPy brute force) for |X|,|Y| <= 6
 against the real code's outputs; greedy feasibility against exhaustive injections.
 """
-import itertools, math
+import itertools, math, warnings
 import numpy as np
 from .. import common
 from ..common import enc, ask, call
@@ -31,7 +31,10 @@ ASSUMPTIONS = [
     "len(K)*diam_X is evaluated in the matrix dtype (int8 for diameters <= 127, wrapping modulo 256); the theorems hold for "
     "every value of that product, the correspondence uses the dtype actually passed",
     "mapping_sample_size_order only determines how many permutations are drawn (>= 1 for finite orders); the theorems "
-    "hold for every non-empty list of permutations",
+    "hold for every non-empty list of permutations (an order whose float sample size is 0 raises StopIteration in code and model alike; "
+    "non-finite orders fail in NumPy's int conversion, outside the model)",
+    "sizes: the theorems are for all sizes; the real code under NumPy 2 raises OverflowError for >= 128 vertices with diameter <= 127 "
+    "(Python int * np.int8 scalar) before any bound is returned - recorded by the large-graph probe, see evidence key large_graph_probe",
 ]
 TRUSTED = ["NumPy semantics of argmin (first minimum), np.unique(axis=0), np.delete, masked sums and integer dtype "
            "promotion, as transcribed in Model/MGH.lean and compared on every run"]
@@ -124,8 +127,36 @@ def metric(A, dtype=None):
     return D if dtype is None else D.astype(dtype)
 
 
+KEY_MODE = {"mode": "dtype"}     # how `len(K) * diam_X` is evaluated by the tree under test (see detect_key_semantics)
+
+
 def bits(D):
-    return D.dtype.itemsize * 8
+    """width the model uses for the sort-key product: the dtype's, or 64 (= exact) when the code multiplies Python ints"""
+    return 64 if KEY_MODE["mode"] == "exact" else D.dtype.itemsize * 8
+
+
+def detect_key_semantics(ctx):
+    """The product len(K)*diam_X is `Python int * np.int8 scalar` in the unchanged code (wraps modulo 256 under NumPy 2); a
+    repaired tree may compute it exactly.  The theorems hold for every value of the product, so the correspondence only has
+    to use the semantics the tree has: probe it once on the 14-vertex path (14*13 = 182 > 127), d = 2, where the two
+    semantics keep 4 resp. 7 rows."""
+    g = G()
+    A = adj_from_edges(14, [(i, i + 1) for i in range(13)])
+    D = metric(A)
+    with np.errstate(all="ignore"), warnings.catch_warnings():
+        warnings.simplefilter("ignore")
+        st, K, _ = call(g.find_largest_size_bounded_curvature, D, D.max(), D.dtype.type(2))
+    a8, a64 = ask(["mgh.curv %s %d 2" % (enc(L(D)), D.dtype.itemsize * 8), "mgh.curv %s 64 2" % enc(L(D))])
+    mode = "dtype"
+    if st == "ok":
+        for name, a in (("dtype", a8), ("exact", a64)):
+            idx = [int(x) for x in a]
+            sub = np.asarray(D)[np.ix_(idx, idx)]
+            if sub.shape == K.shape and (sub == K).all():
+                mode = name
+                break
+    KEY_MODE["mode"] = mode
+    ctx.extra["key_product_semantics"] = {"mode": mode, "probe": "P14, d=2", "rows_kept_by_code": (len(K) if st == "ok" else K)}
 
 
 def L(D):
@@ -335,6 +366,7 @@ def nat(x):
 def run(ctx):
     g = G()
     ctx.extra["source_digest"] = common.source_digest(SRC, ANCHORED)
+    detect_key_semantics(ctx)
     nmax = ctx.n(9, 40)
     b = Batch()
     cov = common.LineCov([SRC])
@@ -359,12 +391,14 @@ def run(ctx):
     for kind, A, B, iso in pairs[60:]:
         one_pair(ctx, b, kind, A, B, iso)
     feas_stream(ctx, b)
+    degenerate_orders(ctx, b)
     b.flush(ctx)
     ctx.extra["branch_hits"] = cov.summary()
     if len(ctx.violations) > 5:
         return
     oracle_stream(ctx)
     feas_exhaustive(ctx)
+    large_graph_probe(ctx)
 
 
 def one_pair(ctx, b, kind, A, B, iso):
@@ -539,6 +573,30 @@ def one_pair(ctx, b, kind, A, B, iso):
         b.flush(ctx)
 
 
+def degenerate_orders(ctx, b):
+    """malformed stream: an order whose float sample size is 0 (|X|^-2000 underflows) -> the lazy generator is empty ->
+    `next()` raises StopIteration out of find_ub_of_min_distortion; the model rejects the empty permutation list the same way"""
+    g, r = G(), ctx.rng
+    for _ in range(ctx.n(12, 60)):
+        n, m = r.randint(2, 7), r.randint(1, 7)
+        _, A = gen_graph(r, n); _, B = gen_graph(r, m)
+        DX, DY = metric(A), metric(B)
+        dr = Draws(mode="numpy", np_seed=r.randrange(2 ** 31))
+        with dr, np.errstate(all="ignore"):
+            st, v, _ = call(g.find_ub_of_min_distortion, DX, DY, mapping_sample_size_order=np.array([-2000.0, 0.0]))
+        code = "err:" + v if st == "err" else int(v)
+        drawn = dr.calls[0] if dr.calls else {"perms": ["?"], "y0s": []}
+
+        def c(ans, code=code, A=A, B=B, drawn=drawn):
+            ctx.case({"op": "find_ub_of_min_distortion", "order": [-2000.0, 0.0], "AG": A.tolist(), "AH": B.tolist()}, False)
+            ctx.count("errors:" + str(code))
+            if ans != code or drawn["perms"]:
+                search_failing_input(ctx, "sample size 0: code=%s (drew %d permutations) model=%s" % (code, len(drawn["perms"]), ans),
+                                     {"op": "find_ub_of_min_distortion", "order": [-2000.0, 0.0], "AG": A.tolist(), "AH": B.tolist()},
+                                     "mgh.ubmin", A, B)
+        b.add("mgh.ubmin %s %s [] [] 0" % (enc(L(DX)), enc(L(DY))), c)
+
+
 def check_draws(ctx, dr, base):
     if dr.bad:
         raise common.HarnessError("np.random contract broken: %r" % dr.bad[:3])
@@ -705,6 +763,40 @@ def oracle_stream(ctx):
                 return
 
 
+FINDING_SITE = "persim/gromov_hausdorff.py:int8-key-product"
+
+
+def large_graph_probe(ctx):
+    """graphs with >= 128 vertices and diameter <= 127: in the unrepaired code `len(K) * diam_X` is `Python int * np.int8`;
+    NumPy 2 refuses a Python int that does not fit the scalar's type (OverflowError), so no bounds are returned at all
+    (repaired in /repo by `int(diam_X)`).  A crash here is a failing input of the property (VIOLATION with replay) unless
+    known_findings.txt (never written here) carries a `known:` entry for it, in which case it prints KNOWN-FINDING."""
+    if len(ctx.violations) > 5:
+        return
+    g = G()
+    A = adj_from_edges(128, [(0, i) for i in range(1, 128)])
+    np.random.seed(0)
+    with np.errstate(all="ignore"):
+        st, v, _ = call(g.gromov_hausdorff, A, relabel(ctx.rng, A), mapping_sample_size_order=np.array([0.0, 0.0]))
+    entries = [(k, t) for k, t in common.known_findings("C05") if FINDING_SITE in t or "int8" in t]
+    rec = {"input": "star on 128 vertices vs a relabelling of itself", "outcome": ("err:" + v) if st == "err" else [float(v[0]), float(v[1])],
+           "disposition": [k for k, _ in entries] or "none recorded in known_findings.txt"}
+    ctx.extra["large_graph_probe"] = rec
+    if st == "ok":
+        ok = float(v[0]) == 0.0 and half_integral(v[1])
+        ctx.test("large_graphs_return_bounds(128 vertices, isomorphic pair)", ok)
+        if not ok:
+            ctx.violation("128-vertex isomorphic stars: estimates %r (lower bound must be 0, upper a multiple of 1/2)" % (rec["outcome"],),
+                          {"op": "large_star", "n": 128}, found_input=True)
+        return
+    if any(k == "known" for k, _ in entries):
+        ctx.known(FINDING_SITE, "site=%s gromov_hausdorff raises %s on graphs with >= 128 vertices and diameter <= 127 "
+                  "(len(K) * np.int8 scalar under NumPy 2); no bounds are returned" % (FINDING_SITE, v))
+    else:
+        ctx.violation("gromov_hausdorff raises %s on two isomorphic 128-vertex stars instead of returning bounds "
+                      "(len(K) * np.int8 scalar overflows under NumPy 2)" % v, {"op": "large_star", "n": 128}, found_input=True)
+
+
 def replay(ctx, rep):
     c = rep["case"]
     if "AG" in c and "np_seed" in c:
@@ -714,6 +806,11 @@ def replay(ctx, rep):
             ok = det["lb"] == 0.0
         print("gromov_hausdorff(AG, AH, mapping_sample_size_order=%s) after np.random.seed(%s): %r" % (c["order"], c["np_seed"], det))
         return ok
+    if c.get("op") == "large_star":
+        A = adj_from_edges(c["n"], [(0, i) for i in range(1, c["n"])])
+        st, v, _ = call(G().gromov_hausdorff, A, A, mapping_sample_size_order=np.array([0.0, 0.0]))
+        print("gromov_hausdorff(star(%d), star(%d)):" % (c["n"], c["n"]), st, v)
+        return st == "ok" and float(v[0]) == 0.0 and half_integral(v[1])
     if c.get("op") == "iso":
         lb = int(G().find_lb(metric(np.array(c["AG"])), metric(np.array(c["AH"]))))
         print("find_lb on an isomorphic pair:", lb)
